@@ -787,7 +787,9 @@ class UniformTime(np.ndarray, TimeInterface):
         elif isinstance(key, slice) and self.ndim == 1:
             # A slice with a step is again uniform; make its attributes
             # describe the samples it holds, not those of its parent:
-            out = np.ndarray.__getitem__(self, key)
+            # (a copy, not a view: an in-place operation on the slice must
+            # not move some of the parent's samples and break its uniformity)
+            out = np.ndarray.__getitem__(self, key).copy()
             start, stop, step = key.indices(len(self))
             out._set_sampling(
                 int(self.t0) + start * int(self.sampling_interval),
